@@ -4,6 +4,7 @@ import (
 	"flag"
 	"fmt"
 	"os"
+	"sort"
 	"strings"
 	"time"
 )
@@ -44,6 +45,13 @@ func cmdVC(args []string) {
 		fmt.Fprintln(os.Stderr, err)
 		os.Exit(2)
 	}
+	ips = nil
+	for path := range p.Pkgs {
+		if strings.HasPrefix(path, modPath) {
+			ips = append(ips, path)
+		}
+	}
+	sort.Strings(ips)
 	cs, err := LoadContracts(*repo, *mirror, modPath, ips)
 	if err != nil {
 		fmt.Fprintln(os.Stderr, err)
